@@ -13,9 +13,15 @@ EXPLANATION = ("Abstract path enumeration of Function.oracle over the finite dom
                "classification, add_point (pruning of all three members, registration, stationary list) and the weighted-sum remainder (normal form, "
                "unrolled for 1..3 terms); differentiability flag of sums, multiples and of the 24 families; stationary / fixed points; every consumer of "
                "a composite's weights works on pruned weights."
-               ' Also: the operators of Function (sum, difference, multiples) by abstract interpretation, including an operand that is the receiver itself.')
+               ' Also: the operators of Function (sum, difference, multiples) by abstract interpretation, including an operand that is the receiver itself.'
+               " R-FUNCSYS: the methods of Function unrolled on an object graph (two or three leaf functions, their weighted sum with symbolic weights, "
+               "a term of weight 0, a flag of the sum that disagrees with its terms) along every bounded history of queries (oracle / value / gradient of "
+               "the sum or a term, stationary and fixed points, user-made samples); after every query: one value per function and point, one gradient "
+               "for a differentiable function, a new part in every further subgradient, returned = recorded, every sample of the sum is the weighted sum "
+               "of samples of its terms, stationary list = samples with gradient zero.  The per-method rules give way to it where they cannot read a method."
+               " R-ROUTE: a primitive step records a sample of its own only at a point made from something it created.")
 TRUSTED = ["CPython ast", "sa/nf.py arithmetic"]
-ASSUMPTIONS = ["the order-dependent assignment of the remainder over arbitrary call histories is checked per call (one add_point), not over histories"]
+ASSUMPTIONS = ["query histories are explored up to two queries (three in the thorough tier, and selected ones of three in the quick tier) on sums of two or three terms"]
 
 LOOKUP = "_is_already_evaluated_on_point"
 SEPARATE = "_separate_leaf_functions_regarding_their_need_on_point"
@@ -691,6 +697,8 @@ def _tolerant(ctx, rule_fn):
     try:
         return rule_fn(ctx)
     except AnalysisError as e:
+        if ("funcsys",) not in ctx.program_ok and ("funcsys",) in ctx.program_lazy:
+            ctx.program_lazy.pop(("funcsys",))()
         if isinstance(e, ProgramRaiseT) or not ctx.program_ok.get(("funcsys",)):
             raise
         ctx.notes.append("%s: %s; decided by R-FUNCSYS (the stores unrolled as a system)" % (rule_fn.__name__, e))
@@ -712,8 +720,9 @@ def r_bookkeeping(ctx):
 
 
 def with_system(ctx, rule_fn):
-    """a per-method rule used by another property: the system program decides first, the rule gives way to it where it cannot read the method"""
-    r_system(ctx)
+    """a per-method rule used by another property: where it cannot read the way the method is written, the system program is run (once) and decides"""
+    if not getattr(ctx, "_funcsys_done", False):
+        ctx.program_lazy[("funcsys",)] = lambda: r_system(ctx)
     return _tolerant(ctx, rule_fn)
 
 
